@@ -79,7 +79,8 @@ class Observer:
         union = {}
         sane = None
         if allowed:
-            sane = (min(allowed) - 10000, max(allowed) + 10000)
+            margin = 10000 + 3 * (cfg["n"] * cfg["fc"] // (cfg["d"] * 1000) + 1)  # continuous files expose their whole window
+            sane = (min(allowed) - margin, max(allowed) + margin)
         for rel in finals:
             p = os.path.join(top, rel)
             h = sha(p)
